@@ -20,7 +20,7 @@ def execOp (st : DState) (env : Env) (name : String) (args : List String) (other
     the definitions are wrong; a firing shows up as a disagreement with the implementation). -/
 def invNote (st : DState) (t : Raw) : String :=
   if !invB st.cfg t then s!" INV-FAIL({invWhy st.cfg t})"
-  else if st.envp.hashMode == "plan" && st.envp.eqMode == "law" && st.coll != "table" && t.buckets ≤ 64 then
+  else if !st.tainted && st.envp.hashMode == "plan" && st.envp.eqMode == "law" && st.coll != "table" && t.buckets ≤ 64 then
     let H := fun k => (st.plan.get? k).getD (mix3 0x5eed 0 k)
     if invLB st.cfg H t then "" else " INVL-FAIL"
   else ""
